@@ -146,7 +146,7 @@ int vp_case(Choice& c, Report& rep) {
     HeapBuf<uint8_t> fbuf(fecflag ? pk[i + 1].data.size() : 0);
     if (fecflag) { memcpy(fbuf.p, pk[i + 1].data.data(), pk[i + 1].data.size()); dptr = fbuf.p; dlen = (int)pk[i + 1].data.size(); }
     if (dptr) { int m = dptr[0] >= 128 ? 2 : (dptr[0] >= 96 ? 1 : 0); if (m != last_mode) { n_modes++; last_mode = m; } }
-    // Finding F12 lives in the decoder's "transition" (cross-fade from a nested concealment frame), taken when a real frame's
+    // Finding F19 lives in the decoder's "transition" (cross-fade from a nested concealment frame), taken when a real frame's
     // mode class (CELT-only vs SILK/hybrid) differs from the decoder's previous mode.  The previous mode is not observable, so
     // it is over-approximated: may_celt / may_non = classes it may have; red = the last decoded frame may have carried CELT
     // redundancy, in which case a concealment frame runs in CELT mode.  Frames of <= 1 byte are concealed as well.
@@ -159,6 +159,10 @@ int vp_case(Choice& c, Report& rep) {
       opus_int16 fsz[48];
       int nf = opus_packet_parse(dptr, dlen, nullptr, nullptr, fsz, nullptr);
       for (int k = 0; k < nf; k++) if (fsz[k] <= 1) tiny_frame = true;
+      if (fecflag) {   // the decoder first conceals the part before the recovered frame (or everything): that may switch to CELT
+        if ((may_celt || may_non) && red) may_celt = true;
+        red = false;
+      }
       transition_possible = celt ? may_non : may_celt;
       if (tiny_frame) transition_possible = transition_possible || may_celt || may_non;
       if (fecflag) {   // either an LBRR decode (previous mode becomes the packet's) or plain concealment
@@ -171,8 +175,20 @@ int vp_case(Choice& c, Report& rep) {
       }
     }
     rep.note("pkt %zu %s toc=0x%02x len=%d fs=%d gain=%d%s", i, what, dptr ? dptr[0] : 0, dlen, fs, g, transition_possible ? " [mode class may change]" : "");
-    int skip = 0;
-    if (transition_possible && g != 0) { n_trans++; if (rep.exclude("F12")) skip = tiny_frame ? fs * chD : (FsD / 200) * chD; }
+    // samples [skip_lo, skip_hi) are not compared while F19 is excluded: the first 5 ms of the real frame.  In an FEC call the
+    // recovered frame sits at the end of the buffer, behind a concealed prefix of (fs - frame length) samples.
+    int skip_lo = 0, skip_hi = 0;
+    if (transition_possible && g != 0) {
+      n_trans++;
+      if (rep.exclude("F19")) {
+        if (tiny_frame) { skip_lo = 0; skip_hi = fs * chD; }
+        else {
+          int spf = opus_packet_get_samples_per_frame(dptr, FsD);
+          int off = fecflag && fs > spf ? fs - spf : 0;
+          skip_lo = off * chD; skip_hi = (off + FsD / 200) * chD;
+        }
+      }
+    }
 
     HeapBuf<float> oa((size_t)fs * chD), ob((size_t)fs * chD);
     HeapBuf<opus_int16> oc((size_t)fs * chD);
@@ -190,14 +206,16 @@ int vp_case(Choice& c, Report& rep) {
                rng[0], rng[1], rng[2], rng[3]);
     const int ns = ra * chD;
     // ---- float: one exact factor ---------------------------------------------------------------------------------
-    if (skip > ns) skip = ns;
+    if (skip_hi > ns) skip_hi = ns;
+    if (skip_lo > ns) skip_lo = ns;
+    auto skipped = [&](int s) { return s >= skip_lo && s < skip_hi; };
     int imax = -1; float amax = 0;
-    for (int s = skip; s < ns; s++) { float a = std::fabs(oa[s]); if (a > amax) { amax = a; imax = s; } }
+    for (int s = 0; s < ns; s++) { if (skipped(s)) continue; float a = std::fabs(oa[s]); if (a > amax) { amax = a; imax = s; } }
     const char* scale_sig = transition_possible ? "c19:gain-not-exact-scale-at-mode-transition" : "c19:gain-not-exact-scale";
     if (g == 0) {
       for (int s = 0; s < ns; s++) VP_REQUIRE(bits(oa[s]) == bits(ob[s]), "c19:gain-zero-not-identity", "packet %zu sample %d: %.9g vs %.9g with gain 0", i, s, oa[s], ob[s]);
     } else if (imax < 0) {
-      for (int s = skip; s < ns; s++) if (ob[s] != 0.f) return rep.fail(scale_sig, "packet %zu (%s) sample %d: silent input but %.9g with gain %d", i, what, s, ob[s], g);
+      for (int s = 0; s < ns; s++) if (!skipped(s) && ob[s] != 0.f) return rep.fail(scale_sig, "packet %zu (%s) sample %d: silent input but %.9g with gain %d", i, what, s, ob[s], g);
     } else {
       n_nonsilent++;
       const double ideal = std::pow(10.0, g / 5120.0);
@@ -211,7 +229,8 @@ int vp_case(Choice& c, Report& rep) {
       }
       if (!cand_init) {
         // nothing but near-denormal output so far: the factor cannot be pinned down yet, check the scaling loosely
-        for (int s = skip; s < ns; s++) {
+        for (int s = 0; s < ns; s++) {
+          if (skipped(s)) continue;
           double want = (double)oa[s] * ideal;
           if (std::fabs((double)ob[s] - want) > 1e-4 * std::fabs(want) + 3e-45)
             return rep.fail(scale_sig, "packet %zu (%s) gain %d sample %d: %.9g scaled by 10^(g/5120) is %.9g, decoder gave %.9g", i, what, g, s, oa[s], want, ob[s]);
@@ -223,7 +242,7 @@ int vp_case(Choice& c, Report& rep) {
       int worst_s = -1; float worst_G = 0;
       for (float G : cand) {
         bool ok = true;
-        for (int s = skip; s < ns; s++) { volatile float p = oa[s] * G; if (bits(p) != bits(ob[s])) { ok = false; if (worst_s < 0 || s > worst_s) { worst_s = s; worst_G = G; } break; } }
+        for (int s = 0; s < ns; s++) { if (skipped(s)) continue; volatile float p = oa[s] * G; if (bits(p) != bits(ob[s])) { ok = false; if (worst_s < 0 || s > worst_s) { worst_s = s; worst_G = G; } break; } }
         if (ok) keep.push_back(G);
       }
       if (keep.empty()) {
